@@ -3,3 +3,6 @@ pub(crate) use self::decoder::Decoder;
 mod decoder;
 mod encoding;
 mod u16_iter;
+
+#[cfg(maxohn_rosu_map_verif)]
+pub use self::{decoder::Decoder as VerifDecoder, encoding::Encoding as VerifEncoding};
